@@ -10,6 +10,7 @@ from __future__ import annotations
 
 import builtins
 import functools
+import inspect
 import io
 import logging
 import os
@@ -69,7 +70,12 @@ class FilesystemIsolation(ContextDecorator):
     @staticmethod
     def _abspath(path: os.PathLike | str) -> str:
         """Convert a path to an absolute path."""
-        return _normalize_path_cached(str(path))
+        text = os.fspath(path) if isinstance(path, os.PathLike) else str(path)
+        if isinstance(text, str) and not os.path.isabs(text):
+            # The cache is keyed on the text alone, a relative path means something
+            # else after the code under test changed the working directory.
+            text = os.path.join(os.getcwd(), text)  # noqa: PTH109, PTH118
+        return _normalize_path_cached(str(text))
 
     def _record_created(self, *paths: os.PathLike | str | None) -> None:
         """Record newly created paths. Uses set.update for fewer allocations."""
@@ -106,12 +112,19 @@ class FilesystemIsolation(ContextDecorator):
         return any(ch in mode for ch in ("w", "a", "x", "+"))
 
     @staticmethod
-    def _get_arg(args: tuple, kwargs: dict, index: int | None) -> os.PathLike | str | None:
-        """Fast, heuristic argument resolver: prefer positional, then common kw names."""
+    def _get_arg(
+        args: tuple, kwargs: dict, index: int | None, names: tuple[str, ...] = ()
+    ) -> os.PathLike | str | None:
+        """Argument resolver: positional, then the keyword of that position, then common kw names.
+
+        ``names`` are the parameter names of the wrapped callable, if they are known.
+        """
         if index is None:
             return None
         if index < len(args):
             return args[index]
+        if index < len(names):
+            return kwargs.get(names[index])
         for name in COMMON_KW_NAMES:
             if name in kwargs:
                 return kwargs[name]
@@ -132,17 +145,22 @@ class FilesystemIsolation(ContextDecorator):
         (e.g. ``Path.write_text``) and hence must not run on pre-existing real paths.
         """
 
+        try:
+            names = tuple(inspect.signature(original_func).parameters)
+        except (TypeError, ValueError):
+            names = ()
+
         @functools.wraps(original_func)
         def tracked_method(*args, **kwargs):
-            forget_path = self._get_arg(args, kwargs, forget_arg_idx)
+            forget_path = self._get_arg(args, kwargs, forget_arg_idx, names)
             if forget_path:
                 abs_forget = self._abspath(forget_path)
                 # only allow modifications of previously-created (isolated) paths
                 if abs_forget not in self._created:
                     raise PermissionError(f"Attempted to modify non-isolated path: {abs_forget}")
 
-            rec = self._get_arg(args, kwargs, record_arg_idx)
-            dst = self._get_arg(args, kwargs, record_dst_idx)
+            rec = self._get_arg(args, kwargs, record_arg_idx, names)
+            dst = self._get_arg(args, kwargs, record_dst_idx, names)
             if self._is_foreign(dst) or (overwrites and self._is_foreign(rec)):
                 # the call would overwrite a path of the real filesystem
                 foreign = dst if self._is_foreign(dst) else rec
